@@ -286,6 +286,41 @@ def check_library(case, b):
     from vermouth.pdb import write_pdb
     from vermouth.processors.name_moltype import NameMolType
     system = build(case)
+    p1, names = verify_system(system, case, b)
+    if p1 and p1[0] != 'moltype/shared-name-floats-within-isclose-tolerance':
+        return p1, names
+    if int(harness.h([names, len(case['mols']), 'again']), 16) % 3 == 0:
+        # the same molecule objects written a second time after their atom ids changed (node order untouched): molecules that used to
+        # differ may now be alike and the other way round; names and files must follow the molecules as they are now
+        import random
+        r_ = random.Random(int(harness.h([names, 'ids']), 16))
+        mode = r_.choice(['ascending', 'descending', 'drop', 'shuffle'])
+        for mol in system.molecules:
+            keys = list(mol.nodes)
+            ids = list(range(1, len(keys) + 1))
+            if mode == 'descending':
+                ids.reverse()
+            elif mode == 'shuffle':
+                r_.shuffle(ids)
+            for k, i in zip(keys, ids):
+                if mode == 'drop':
+                    mol.nodes[k].pop('atomid', None)
+                else:
+                    mol.nodes[k]['atomid'] = i
+            mol.meta.pop('moltype', None)
+        b.feat('second_write_after_atomid_change')
+        p2, names2 = verify_system(system, case, b)
+        if p2:
+            return ('rewrite/' + p2[0], dict(p2[1], atomids=mode)) if p2[0] != 'moltype/shared-name-floats-within-isclose-tolerance' else p2, names2
+    return p1, names
+
+
+def verify_system(system, case, b):
+    from vermouth.file_writer import DeferredFileWriter
+    from vermouth.gmx.gro import write_gro
+    from vermouth.gmx.topology import write_gmx_topology
+    from vermouth.pdb import write_pdb
+    from vermouth.processors.name_moltype import NameMolType
     util.shared(NameMolType, deduplicate=case['dedup']).run_system(system)
     names = [m.meta['moltype'] for m in system.molecules]
     b.hits += 1
